@@ -15,6 +15,13 @@
 //!  * `not-served`      — a live connection does not answer a ping any more;
 //!  * `forwarded-unforwardable` — a delivered datagram frame is empty or exceeds MAX_PACKET_SIZE.
 //! Every script ends with a ping to every connection.
+//!
+//! Timed scenarios (`cap:T;…` sets `Config::write_timeout` to T ms; `slow c ms`): the clock is
+//! paused and advanced by the runner only.  A slow receiver accepts one frame every `ms` of
+//! virtual time; a sender bursts 2–80 frames at it.  The write timeout is a per-frame budget:
+//! a receiver that accepts every single frame within T must survive any burst — if its
+//! connection ends, that is a `cross-kill`; a receiver slower than T per frame may end (its own
+//! doing).
 #[path = "../relayreg.rs"]
 mod relayreg;
 use relayreg::*;
@@ -228,6 +235,39 @@ fn adversarial(rng: &mut Rng, c: usize, nconn: usize) -> String {
     }
 }
 
+/// Victim = connection 0 (endpoint 0), its client takes `ms` per frame; the attacker (connection 1)
+/// bursts `k` datagrams at it in one go (its frames are read back to back when it resumes);
+/// optionally a second sender adds its own burst.
+fn timed_script(cap: usize, t: Option<u64>, ms: u64, k: usize, two_senders: bool) -> String {
+    let mut ops: Vec<String> = vec!["reg 0 2".into(), "reg 1 2".into()];
+    if two_senders {
+        ops.push("reg 2 1".into());
+    }
+    ops.push(format!("slow 0 {ms}"));
+    ops.push("stall 1".into());
+    for i in 0..k {
+        ops.push(format!("send 1 0 s 0 0 {}", hex(&[(i >> 8) as u8, i as u8])));
+    }
+    if two_senders {
+        ops.push("stall 2".into());
+        for i in 0..k.min(10) {
+            ops.push(format!("send 2 0 s 1 0 {}", hex(&[0xEE, i as u8])));
+        }
+        ops.push("unstall 2".into());
+    }
+    ops.push("unstall 1".into());
+    ops.push("slow 0 0".into());
+    let n = if two_senders { 3 } else { 2 };
+    for c in 0..n {
+        ops.push(format!("ping {c} {}", hex(&[0xA0 + c as u8; 8])));
+    }
+    let hd = match t {
+        Some(t) => format!("{cap}:{t}"),
+        None => cap.to_string(),
+    };
+    format!("{hd};{}", ops.join(";"))
+}
+
 fn random_case(rng: &mut Rng) -> String {
     let cap = *rng.pick(&[1usize, 2, 4, 0]);
     let mut ops: Vec<String> = vec!["reg 0 2".into(), format!("reg 1 {}", rng.range(1, 2))];
@@ -311,6 +351,28 @@ impl Prop for C05 {
                 out.push(format!("2;reg 0 2;reg 1 2;raw 1 {tag} {body};ping 0 a0a0a0a0a0a0a0a0;ping 1 a1a1a1a1a1a1a1a1"));
             }
         }
+        // timed: a slow receiver and bursts at it
+        for s in [
+            // 80 frames, 30 ms each, budget 50 ms per frame: 2.4 s in total
+            timed_script(100, Some(50), 30, 80, false),
+            timed_script(0, Some(50), 49, 64, false),
+            timed_script(0, Some(50), 49, 65, true),
+            // the crate's default write timeout (2 s): 1.5 s per frame, 5 frames
+            timed_script(8, None, 1500, 5, false),
+            // beyond the budget for a single frame: the receiver's own connection ends
+            timed_script(8, Some(50), 51, 3, false),
+            timed_script(8, None, 2001, 2, false),
+        ] {
+            out.push(s);
+        }
+        let ntimed = if tier == Tier::Thorough { 300 } else { 30 };
+        for _ in 0..ntimed {
+            let t = *rng.pick(&[20u64, 50, 100]);
+            let within = rng.chance(5, 6);
+            let ms = if within { rng.range(t / 2, t - 1) } else { rng.range(t + 1, 2 * t) };
+            let k = rng.range(2, 80) as usize;
+            out.push(timed_script(*rng.pick(&[0usize, 100, 4]), Some(t), ms, k, rng.bool()));
+        }
         let target = out.len() + n;
         while out.len() < target {
             out.push(random_case(rng));
@@ -336,6 +398,7 @@ fn oracle(tr: &Trace, ex: &mut Exec) {
     let mut ended: Vec<bool> = Vec::new();
     let mut stalled: Vec<bool> = Vec::new();
     let mut doomed: Vec<bool> = Vec::new(); // stream ended / cancelled while stalled
+    let mut slow: Vec<u64> = Vec::new(); // ms the client takes to accept one frame
     let mut prev = Snapshot::default();
     let mut survived_frames = 0usize;
     let mut rejected_frames = 0usize;
@@ -354,6 +417,11 @@ fn oracle(tr: &Trace, ex: &mut Exec) {
             Op::Stall { c } => {
                 if *c < nconn && !ended[*c] {
                     stalled[*c] = true;
+                }
+            }
+            Op::Slow { c, ms } => {
+                if *c < nconn {
+                    slow[*c] = *ms;
                 }
             }
             Op::Disc { id, sel } => {
@@ -391,6 +459,13 @@ fn oracle(tr: &Trace, ex: &mut Exec) {
             ended.push(false);
             stalled.push(false);
             doomed.push(false);
+            slow.push(0);
+        }
+        // a client that needs longer than the write timeout for ONE frame ends its own connection
+        for r in 0..nconn {
+            if slow[r] > tr.wt_ms {
+                allowed.push(r);
+            }
         }
         if !anything {
             for e in &st.ended {
@@ -401,10 +476,11 @@ fn oracle(tr: &Trace, ex: &mut Exec) {
                     );
                 }
             }
-            if let Some(c) = client_of {
-                let own = tr.owner.get(c).copied();
+            if client_of.is_some() {
+                // entries that may change: those of connections this step may end
+                let own: Vec<usize> = allowed.iter().filter_map(|c| tr.owner.get(*c).copied()).collect();
                 for id in 0..NUM_IDS {
-                    if Some(id) != own && prev.entries.get(&id) != st.snap.entries.get(&id) {
+                    if !own.contains(&id) && prev.entries.get(&id) != st.snap.entries.get(&id) {
                         ex.violation("registry-touched", format!("step {i} `{}`: entry of endpoint {id} changed", st.op.render()));
                     }
                 }
@@ -436,7 +512,7 @@ fn oracle(tr: &Trace, ex: &mut Exec) {
             _ => None,
         };
         if let Some((c, data)) = ping {
-            if c < nconn && !ended[c] && !stalled[c] && !doomed[c] {
+            if c < nconn && !ended[c] && !stalled[c] && !doomed[c] && slow[c] <= tr.wt_ms {
                 let ok = st.frames.get(&c).is_some_and(|fs| fs.iter().any(|f| *f == Frame::Pong(data)));
                 if !ok {
                     ex.violation("not-served", format!("step {i}: connection {c} did not answer the ping"));
@@ -462,6 +538,9 @@ fn oracle(tr: &Trace, ex: &mut Exec) {
     }
     if rejected_frames > 0 {
         ex.tags.push("frame-rejected-sender-ended".into());
+    }
+    if tr.steps.iter().any(|st| matches!(st.op, Op::Slow { ms, .. } if ms > 0)) {
+        ex.tags.push("timed-burst".into());
     }
     if tr.toks.iter().any(|(b, _)| b.is_empty() || b.len() >= 65500) {
         ex.tags.push("boundary-size".into());
